@@ -1,0 +1,14 @@
+//go:build verif
+
+package payload
+
+// Contracts for the verif build tag (comment-only; see /verif/DESIGN.md).
+
+//@ prop C17
+//@ import io github.com/nspcc-dev/neo-go/pkg/io
+
+// Safety contract: decoding never panics and never passes a negative bound on.
+//@ func (*MerkleBlock).DecodeBinary
+//@ requires m != nil && io.validR(br)
+//@ opt frame off
+//@ ensures[reader] io.validR(br)
